@@ -204,7 +204,26 @@ def run_formatter(cfg, text, via='str'):
             f.parseFile(fh)
     else:
         f.parseStr(text)
+    _decoy(cfg)
     return f, f.getHTML()
+
+
+DECOY_DOC = '<!DOCTYPE decoy><div class="k"><br/><pre> x <b/></pre><img src="i"><code/>y</div>'
+
+
+def _decoy(cfg):
+    """Between the parse and the serialisation of the formatter under test, other formatter objects — the slim classes
+    with the *opposite* slimSelfClosing setting and a different indent, and the two normal classes — parse another
+    document: a formatter's output depends on its own configuration and input only (state kept on a class or module
+    instead of the instance shows here)."""
+    from AdvancedHTMLParser import Formatter as F
+    for g in (F.AdvancedHTMLSlimTagFormatter(indent='\t\t\t', slimSelfClosing=not cfg.get('ssc')),
+              F.AdvancedHTMLSlimTagMiniFormatter(slimSelfClosing=not cfg.get('ssc')),
+              F.AdvancedHTMLFormatter(indent='   '), F.AdvancedHTMLMiniFormatter()):
+        try:
+            g.parseStr(DECOY_DOC)
+        except Exception:
+            pass
 
 
 def fmt(cfg, text):
